@@ -108,8 +108,19 @@ func (c *c19Run) op(f []string) string {
 		}
 		n0 := c.listed()
 		s, err := newSession(c12Config(fmt.Sprintf("%s_c%d", c.prefix, len(c.clients)), MemMapTypeMemFd), conn, true)
+		// the adapter's server side runs its handshake with the library's default 1 s InitializeTimeout (not
+		// configurable through Listen): on a heavily loaded machine it can expire. That is load, not behaviour: try again.
+		for attempt := 0; err != nil && attempt < 4 && !c.lclosed; attempt++ {
+			conn.Close()
+			c.tags["dial-retried"] = true
+			time.Sleep(200 * time.Millisecond)
+			if conn, err = net.Dial("unix", c.path); err != nil {
+				break
+			}
+			s, err = newSession(c12Config(fmt.Sprintf("%s_c%d_r%d", c.prefix, len(c.clients), attempt), MemMapTypeMemFd), conn, true)
+		}
 		if err != nil {
-			c.setFail("dial", "client session: "+err.Error())
+			c.setFail("dial", "client session (5 attempts): "+err.Error())
 			return "bad-op"
 		}
 		c.clients = append(c.clients, &c19Client{s: s})
@@ -143,9 +154,19 @@ func (c *c19Run) op(f []string) string {
 			c.tags["listener-closed-during-handshake"] = true
 		}
 		s, err := newSession(c12Config(fmt.Sprintf("%s_c%d", c.prefix, len(c.clients)), MemMapTypeMemFd), conn, true)
+		for attempt := 0; err != nil && attempt < 4 && !c.lclosed; attempt++ {
+			// (load: see "dial")
+			conn.Close()
+			c.tags["dial-retried"] = true
+			time.Sleep(200 * time.Millisecond)
+			if conn, err = net.Dial("unix", c.path); err != nil {
+				break
+			}
+			s, err = newSession(c12Config(fmt.Sprintf("%s_c%d_r%d", c.prefix, len(c.clients), attempt), MemMapTypeMemFd), conn, true)
+		}
 		if err != nil {
 			if !c.lclosed {
-				c.setFail("dial", "client session: "+err.Error())
+				c.setFail("dial", "client session (5 attempts): "+err.Error())
 				return "bad-op"
 			}
 			// the closed listener dropped the connection before the handshake ended: same as a session that ended at once
